@@ -4,6 +4,7 @@
    is what the correspondence stream of degenerate shapes validates (partial). *)
 From Coq Require Import List Arith ZArith.
 From RV Require Import Val Syntax Rho Offline ListFacts OfflineCorrect Online OnlineCorrect Support ExtZ.
+From RV Require Dense DenseSem DenseMergeCorrect DenseEval DenseVisitor DenseConst DenseEvalMain DenseIA DenseOnlineMon DenseOnlineMonCorrect DenseOnlineMonMore.
 Import ListNotations.
 
 (* discrete offline: every construct is supported (also precedes[b,e], so every pastified specification);
@@ -55,6 +56,76 @@ Theorem C17_never_other_exception :
   forall (VS : Val) (k : mkind) (p : formula), first_eval k p <> Crash.
 Proof. exact @first_eval_never_crashes. Qed.
 Print Assumptions C17_never_other_exception.
+
+(* ---- dense time: the supported constructs evaluate (the models of the two dense-time monitors return a value, i.e. reach no raise) ---- *)
+
+(* the fragment of the dense-time offline correctness theorem is exactly what that monitor supports *)
+Lemma dfrag_is_supported : forall (VS : Val) (p : formula), DenseConst.dfrag p = supported DenseOff p.
+Proof.
+  intros VS p. cbn [supported].
+  induction p; cbn [DenseConst.dfrag no_sample_ops]; try reflexivity; try exact IHp; rewrite IHp1, IHp2; reflexivity.
+Qed.
+
+(* dense offline: every supported well-formed formula on strictly increasing non-empty signals that start at 0 yields a value
+   (a non-empty list with increasing stamps); C04_visitor says which one *)
+Theorem C17_ok_dense_offline :
+  forall (VS : Val) (AR : Arith VS), (forall l r, neg (a2 AR Sub l r) = a2 AR Sub r l) ->
+  forall (W : list Dense.dsig) (tend : Z), (0 <= tend)%Z ->
+    (forall s, In s W -> DenseMergeCorrect.dsorted s /\ s <> [] /\ (forall a v, In (a, v) s -> (a <= tend)%Z)) ->
+    (forall s, In s W -> Dense.start s = 0%Z) ->
+  forall p, supported DenseOff p = true -> wf_bounds p = true -> (nvars p <= length W)%nat ->
+    exists s, DenseVisitor.deval AR p W = Some s /\ DenseMergeCorrect.dsorted s /\ s <> [].
+Proof.
+  intros VS AR SN W tend Ht HW H0 p Hs Hb Hn. rewrite <- dfrag_is_supported in Hs.
+  destruct (DenseEvalMain.deval_correct AR SN W tend Ht HW p Hs Hb (or_intror H0) Hn) as (s & E & S & N & _).
+  exists s. repeat split; assumption.
+Qed.
+Print Assumptions C17_ok_dense_offline.
+
+(* dense online: what the proved fragment contains is supported *)
+Lemma cl_supported : forall (VS : Val) (p : formula), DenseOnlineMonMore.cl p <> DenseOnlineMonMore.CBad -> supported DenseOn p = true.
+Proof.
+  intros VS p. cbn [supported].
+  assert (J : forall a b, DenseOnlineMonMore.join a b <> DenseOnlineMonMore.CBad -> a <> DenseOnlineMonMore.CBad /\ b <> DenseOnlineMonMore.CBad).
+  { intros a b H. split; intros E; subst; apply H; [reflexivity|destruct a; reflexivity]. }
+  assert (G : forall c x, DenseOnlineMonMore.guard c x <> DenseOnlineMonMore.CBad -> x <> DenseOnlineMonMore.CBad).
+  { intros c x H E. subst. apply H. destruct c; reflexivity. }
+  induction p; cbn [DenseOnlineMonMore.cl past_only no_sample_ops]; intros H; try reflexivity; try (exfalso; apply H; reflexivity);
+  try (apply IHp; exact H);
+  try (apply J in H as [H1 H2]; specialize (IHp1 H1); specialize (IHp2 H2); apply andb_prop in IHp1 as [A1 A2]; apply andb_prop in IHp2 as [B1 B2];
+       rewrite A1, A2, B1, B2; reflexivity).
+  - apply G in H. apply IHp. intros E. rewrite E in H. apply H. reflexivity.
+  - apply G in H. apply IHp. intros E. rewrite E in H. apply H. reflexivity.
+  - apply G in H.
+    assert (H1 : DenseOnlineMonMore.cl p1 <> DenseOnlineMonMore.CBad) by (intros E; rewrite E in H; apply H; reflexivity).
+    assert (H2 : DenseOnlineMonMore.cl p2 <> DenseOnlineMonMore.CBad) by (intros E; rewrite E in H; apply H; destruct (DenseOnlineMonMore.cl p1); reflexivity).
+    specialize (IHp1 H1); specialize (IHp2 H2); apply andb_prop in IHp1 as [A1 A2]; apply andb_prop in IHp2 as [B1 B2].
+    rewrite A1, A2, B1, B2; reflexivity.
+Qed.
+
+(* … and on it no update() of any sequence of batches raises: one output list per update (C05_monitor_general says which);
+   sqrt / ln under the hypothesis `safe` that they receive no value outside their domain (otherwise the update raises: partial_op_raises) *)
+Theorem C17_ok_dense_online :
+  forall (VS : Val) (AR : Arith VS) (pk : formula -> formula -> pkind),
+    (forall f g, pk f g = PStd) \/ DenseIA.DiffLaws AR -> (forall l r : V, neg (a2 AR Sub l r) = a2 AR Sub r l) ->
+    forall (p : formula) (W : list Dense.dsig) (tend : Z) (envs : list (list Dense.dsig)),
+      DenseOnlineMonMore.cl p <> DenseOnlineMonMore.CBad ->
+      (forall x, DenseOnlineMonCorrect.feedsI [] (map (fun env => nth x env []) envs) (nth x W [])) ->
+      (forall x, DenseMergeCorrect.dsorted (nth x W [])) ->
+      (forall x, nth x W [] <> [] -> Dense.start (nth x W []) = 0%Z) ->
+      DenseOnlineMonMore.safe AR pk W tend p ->
+      supported DenseOn p = true /\
+      exists d ys, DenseOnlineMon.mon_run AR pk p (DenseOnlineMon.mon_init p) envs = Some (d, ys) /\ length ys = length envs.
+Proof.
+  intros VS AR pk Hpk SN p W tend envs Hc HF HS H0 Hsafe. split; [apply cl_supported; exact Hc|].
+  destruct (DenseOnlineMonMore.cl p) eqn:E; [|
+    destruct (DenseOnlineMonMore.mon_online_correct_pk AR pk Hpk SN p W tend envs E HF HS H0 Hsafe) as (d & outs & S & R & _ & L & _) |
+    destruct (DenseOnlineMonMore.mon_online_closed AR pk Hpk SN p W tend envs E HF HS H0 Hsafe) as (d & ys & R & L & _) ].
+  - exfalso. apply Hc. reflexivity.
+  - exists d, (map DenseOnlineMon.lift outs). split; [exact R|]. rewrite map_length. exact L.
+  - exists d, ys. split; assumption.
+Qed.
+Print Assumptions C17_ok_dense_online.
 
 Example C17_nonvacuous :
   let p : @formula ExtZVal := Or (UntilT 0 1 (Var 0) (Var 1)) (Once (Var 0)) in
